@@ -187,6 +187,27 @@ pub fn drive<E: Engine>(engine: &E, args: &Args) -> i32 {
     return replay_cmd(engine, path);
   }
   let thorough = args.tier == "thorough";
+  if args.rest.iter().any(|a| a == "--trace-dump") {
+    // determinism self-test support: one line per run with a hash of its
+    // normalised trace; compared across fresh processes and worker counts
+    let count = args.runs.unwrap_or(200);
+    let batch = run_batch(count, workers(), 3600.0, usize::MAX, true, |i, w| {
+      let mut rng = Rng::new(derive(args.seed, engine.name(), i));
+      let case = engine.generate(&mut rng, thorough);
+      let mut out = RunOut::new();
+      let (vs, trace) = engine.execute(&case, &worker_root(w), &mut out.stats);
+      let mut t = trace.join("\n");
+      for v in vs {
+        t.push_str(&format!("\nV {} {}", v.class, v.site));
+      }
+      out.trace = Some(t);
+      out
+    });
+    for (i, t) in batch.traces {
+      println!("{} {:016x} {}", i, crate::rng::hash_bytes(0, t.as_bytes()), t.lines().count());
+    }
+    return 0;
+  }
   let (def_runs, def_budget) = engine.budget(thorough);
   let runs = args.runs.unwrap_or(def_runs);
   let budget = args.budget.unwrap_or(def_budget);
@@ -428,8 +449,16 @@ pub fn main() -> i32 {
       };
       drive(&crate::engines::CrashEngine { c02 }, &args)
     }
+    "selftest" => match args.rest.first().map(|s| s.as_str()) {
+      Some("simfs") => crate::selftest::simfs_differential(args.runs.unwrap_or(20_000), args.seed),
+      _ => {
+        eprintln!("usage: simcheck selftest simfs [--runs N]");
+        2
+      }
+    },
     "fault" => drive(&crate::engines::FaultEngine, &args),
     "corrupt" => drive(&crate::engines::CorruptEngine, &args),
+    "corrupt-child" => crate::e1_corrupt::child_main(),
     "sched" => {
       let reader_heavy = match args.property.as_str() {
         "C05" => false,
